@@ -42,6 +42,9 @@ def main():
         shutil.copytree(os.path.join("/repo", d), os.path.join(scratch, d), ignore=shutil.ignore_patterns("__pycache__"))
     shutil.copy("/repo/pyproject.toml", scratch)
     meta = {"name": a.name, "breaks_property": a.breaks, "needs_to_manifest": a.needs, "ran": []}
+    old_meta = {}
+    if os.path.exists(os.path.join(dst, "meta.json")):
+        old_meta = json.load(open(os.path.join(dst, "meta.json")))
     env = dict(os.environ)
     env["PYTHONPATH"] = scratch + ":" + dst
     env.setdefault("XDG_CACHE_HOME", os.path.join(HERE, ".cache", "xdg"))
@@ -75,8 +78,14 @@ def main():
             meta["stable_tests_now_failing"] = missing
             meta["tests_passing_with_patch"] = sum(res.values())
             meta["ran"].append(f"pinned pytest suite on the patched copy: {sum(res.values())} pass, {len(missing)} of the 414 stable tests fail")
+        if a.skip_tests:
+            for k in ("stable_tests_now_failing", "tests_passing_with_patch"):
+                if k in old_meta:
+                    meta[k] = old_meta[k]
+            meta["ran"].append("pinned pytest suite: result carried over from the previous evaluation of this change")
         props = (a.props or a.breaks).split(",")
-        meta["checks"] = {}
+        meta["checks"] = dict(old_meta.get("checks", {})) if a.skip_tests else {}
+        meta["first_evaluation_checks"] = old_meta.get("first_evaluation_checks", old_meta.get("checks", {}))
         for prop in props:
             e2 = dict(os.environ)
             e2["PYTHONPATH"] = scratch
